@@ -377,6 +377,16 @@ def run(model, col, tier):
         v = info["visitor"]
         if v is None:
             continue
+        # the rewrites an optimisation pass performs are the ones the rules below decide (R02.2 / R02.5 / R02.7): a handler for
+        # another instruction class is a rewrite nothing here has shown to preserve values (x * 0 -> 0 is wrong for inf and nan)
+        allowed_h = {"OptimizeConstantCasts": {"v_CastInstruction"}, "OptimizeLoadAfterStore": {"v_VariableAccessInstruction"}}.get(pname)
+        if allowed_h is not None:
+            extra_h = sorted(h_ for h_ in v.methods if h_.startswith("v_") and h_ not in ("v_Generic", "v_Visit", "v_Default") and h_ not in allowed_h
+                             and any(isinstance(c, ast.Call) and last_attr(c) in ("Replace", "ReplaceUses", "WithVariable") or isinstance(c, ast.Return) and getattr(c, "value", None) is not None
+                                     for c in ast.walk(v.methods[h_])))
+            col.check(not extra_h, "R02.4", f"{info['file']}::{v.name} rewrites only what the rules cover", f"rewriting handlers: {sorted(allowed_h)}",
+                      f"handler(s) {extra_h} rewrite instructions of a class no rule of this check covers: whether optimised and unoptimised programs still agree is not established "
+                      "(an arithmetic identity such as x * 0 = 0 does not hold for inf / nan)", info["file"], v.methods[extra_h[0]] if extra_h else v.node)
         built = [(m.name, c) for m in v.methods.values() for c in ast.walk(m) if isinstance(c, ast.Call) and (last_attr(c) or "") in icls]
         col.check(not built, "R02.4", f"{info['file']}::{v.name} builds no instructions", "only ReplaceUses / Replace(.., None) / CreateConstant",
                   f"{[(a, unparse(c)[:50]) for a, c in built][:2]}: the pass inserts a new instruction whose operand is a value the pass itself removes (a forwarded load), so the optimised "
@@ -606,6 +616,27 @@ def run(model, col, tier):
                           f"`{' '.join(unparse(n).split())[:70]}` (value `{' '.join(unparse(v).split())[:50]}`) transforms or copies the value: load-after-store forwarding replaces the reloaded value by the "
                           "stored one, so optimised and unoptimised programs then work on different objects (a write through the copy is lost or gained)", VM, n)
         col.floor("R02.10", f"slot bindings in the {opc_} arm", nb, 3)
+    # constant folding turns an instruction operand into a ConstantValue: the interpreter may read the two differently, but
+    # must not *keep* anything (a cache, a counter that is read, a shared list) for one kind only
+    from ..state import mutations_in as _mut210, root_name as _root210
+
+    # the value map: the local most often written as `<map>[...] = ..` in the interpreter loop
+    import collections as _coll210
+
+    cnt_ = _coll210.Counter(t.value.id for n in ast.walk(vmm.loop) if isinstance(n, ast.Assign) for t in n.targets if isinstance(t, ast.Subscript) and isinstance(t.value, ast.Name))
+    vmap = cnt_.most_common(1)[0][0] if cnt_ else None
+    if vmap is None:
+        raise AnchorMissing(f"{VM}::__Execute registers the function's constants in the value map")
+    kind_tests = []
+    for m_ in vmm.ec.methods.values():
+        for n in ast.walk(m_):
+            if isinstance(n, ast.If) and "ConstantValue" in unparse(n.test):
+                kept = [node for recv, node in _mut210(ast.Module(body=n.body + n.orelse, type_ignores=[])) if _root210(recv) != vmap]
+                kind_tests.append((m_, n, kept))
+    bad_ = next(((m_, n, k) for m_, n, k in kind_tests if k), None)
+    col.check(bad_ is None, "R02.10", f"{VM}::ExecutionContext keeps nothing per operand kind", f"{len(kind_tests)} test(s) on ConstantValue operands; none guards a lasting write",
+              (f"under `{' '.join(unparse(bad_[1].test).split())[:70]}` the interpreter does `{' '.join(unparse(bad_[2][0]).split())[:60]}`" if bad_ else "") + ": whether an operand is a constant or an "
+              "instruction is exactly what constant folding changes, so the optimised and the unoptimised module are executed differently", VM, bad_[2][0] if bad_ else vmm.execute)
     # ---------------- R02.7 ------------------------------------------------------
     ld = h.args.args[1].arg  # the load being visited
     pv = None  # the name holding the previous instruction
@@ -670,6 +701,21 @@ def run(model, col, tier):
             n211 += 1
     col.floor("R02.11", "allocator obligations shared with C14", n211, 8)
     check_value_table(model, col, "R02.11")
+    # forwarding hands an instruction the *stored* value, whose own type can differ from the variable's: what an arithmetic
+    # arm does must follow the instruction's type, not the types its operand values carry (= R01.1, division)
+    from ..grammar import Grammar as _G212
+    from . import c01 as _c01_212
+
+    sub212 = _C211("C01")
+    _c01_212.run_R01_1(model, sub212, _G212(model), vm)
+    n212 = 0
+    for ob in sub212.obligations:
+        if "operator / chain" in ob.construct:
+            ob.detail = "[R01.1] " + (ob.detail or "")
+            ob.rule = "R02.10"
+            col.obligations.append(ob)
+            n212 += 1
+    col.floor("R02.10", "division obligations shared with C01", n212, 1)
 
 
 def check_value_table(model, col, rule):
